@@ -2,7 +2,7 @@
    sumbool map to OCaml's; nat, N, Z, positive, ascii and string stay Coq inductives. *)
 From Verif Require Import Base.Bytes Model.Types Model.GoLite Model.Sigs Model.Detectors Model.Text Model.Tree
   Model.Tar Model.Zip Model.Ole Model.Mkv Model.Json Model.Lines Model.Charset Model.Meta Model.Detect
-  Gen.TreeData Gen.SigData Gen.Tables Spec.SpecText Spec.JsonJudge Spec.JsonSubtype Spec.SpecCharset.
+  Gen.TreeData Gen.SigData Gen.Tables Spec.SpecText Spec.JsonJudge Spec.JsonSubtype Spec.SpecCharset Spec.SpecTar Spec.SpecZip.
 From Verif Require Legacy.JsonLegacy.
 Require Import ExtrOcamlBasic.
 
@@ -19,7 +19,8 @@ Extraction "model.ml"
   subtype_spec top_members is_geo is_har is_gltf
   judge_whole judge_prefix json_family looks_like_obj_or_arr
   text_det bin_byte_impl text_spec has_bom no_binary binary_byte text_id binary_path
-  tar_det tar_parse_octal usum ssum
+  c19_forward c19_converse no_marker has_apk_marker ooxml_expected any_with_prefix
+  tar_det tar_parse_octal usum ssum tar_header_ok gpkg_name root_kids id_of_var
   zc skip_files crx_det match_ole_clsid matroska
   lookup insert_first flatten height
   b.
